@@ -1,9 +1,12 @@
-(* Programs over the writers proved so far: the operations of Mutator.v (reads, insert, remove,
-   pop_first, pop_last) and the guard operations of Guard.v (insert_reserve, get_mut +
-   AccessGuardMut::insert, the entry API) refine the sorted-map specification. *)
+(* Programs over the writers proved so far -- the operations of Mutator.v (reads, insert, remove,
+   pop_first, pop_last), the guard operations of Guard.v (insert_reserve, get_mut +
+   AccessGuardMut::insert, the entry API) and retain / retain_in (Scan.v over ScanTree.v) -- refine the
+   sorted-map specification.  NOT covered: extract_if / extract_from_if (modelled in RangeMut.v, validated
+   per run). *)
 From Coq Require Import List NArith Bool.
 From RV Require Import Base.SortedMap Base.SortedMapP Btree.Tree Btree.TreeP Btree.Read Btree.ReadP
-  Btree.Mutator Btree.MutatorP Btree.DeleteP Btree.ProgramP Btree.Guard Btree.GuardP.
+  Btree.Mutator Btree.MutatorP Btree.DeleteP Btree.ProgramP Btree.Guard Btree.GuardP
+  Btree.Scan Btree.ScanTree Btree.RetainTreeP.
 Import ListNotations.
 
 Section ProgramX.
@@ -21,18 +24,24 @@ Section ProgramX.
 
   Inductive xop : Type :=
   | XBase (o : @tree_op K V)
-  | XGuard (g : @gop K V).
+  | XGuard (g : @gop K V)
+  | XRetain (p : K -> V -> bool)
+  | XRetainIn (lo hi : bound K) (p : K -> V -> bool).
 
   Definition apply_xop (bt : @btree K V) (o : xop) : @SortedMap.out K V * @btree K V :=
     match o with
     | XBase b => apply_tree_op cmp ksize vsize fixed_k fixed_v page_size sep inplace bt b
     | XGuard g => apply_gop cmp ksize vsize fixed_k fixed_v page_size sep inplace blank bt g
+    | XRetain p => (OUnit, t_retain_in cmp ksize vsize fixed_k fixed_v page_size sep bt Unbounded Unbounded p)
+    | XRetainIn lo hi p => (OUnit, t_retain_in cmp ksize vsize fixed_k fixed_v page_size sep bt lo hi p)
     end.
 
   Definition spec_xop (m : @SortedMap.map K V) (o : xop) : @SortedMap.out K V * @SortedMap.map K V :=
     match o with
     | XBase b => apply_op cmp m (spec_op b)
     | XGuard g => spec_gop cmp m g
+    | XRetain p => apply_op cmp m (OpRetain p)
+    | XRetainIn lo hi p => apply_op cmp m (OpRetainIn lo hi p)
     end.
 
   Fixpoint run_x (ops : list xop) (bt : @btree K V) : list (@SortedMap.out K V) * @btree K V :=
@@ -51,9 +60,13 @@ Section ProgramX.
     let '(x, bt') := apply_xop bt o in
     TreeInv cmp bt' /\ (x, abs_tree bt') = spec_xop (abs_tree bt) o.
   Proof.
-    intros Hi. destruct o as [b|g]; cbn [apply_xop spec_xop].
+    intros Hi. destruct o as [b|g|p|lo hi p]; cbn [apply_xop spec_xop apply_op].
     - apply (apply_tree_op_refines cmp laws ksize vsize fixed_k fixed_v page_size sep inplace Hsep bt b Hi).
     - apply (apply_gop_refines cmp laws ksize vsize fixed_k fixed_v page_size sep Hsep inplace blank bt g Hi).
+    - destruct (t_retain_refines cmp laws ksize vsize fixed_k fixed_v page_size sep Hsep bt Unbounded Unbounded p Hi) as [H1 H2].
+      split; [exact H1|]. rewrite H2. now rewrite (retain_in_full cmp).
+    - destruct (t_retain_refines cmp laws ksize vsize fixed_k fixed_v page_size sep Hsep bt lo hi p Hi) as [H1 H2].
+      split; [exact H1|]. now rewrite H2.
   Qed.
 
   Theorem program_x_refines_lemma ops : forall (bt : @btree K V), TreeInv cmp bt ->
